@@ -200,3 +200,9 @@ pub fn sparse_jacobian_fd<F>(
         }
     }
 }
+
+/// Verification hook: forwarder to the private column-grouping routine.
+#[cfg(feature = "verif-hooks")]
+pub fn verif_group_columns(col_to_rows: &[Vec<usize>], n: usize) -> (Vec<usize>, usize) {
+    group_columns(col_to_rows, n)
+}
